@@ -1,2 +1,2 @@
-import IgrisModel.C04.Drv
-def main : IO Unit := Igris.Proto.run () Igris.Gstuff.stepLine
+import IgrisModel.C04.Drv2
+def main : IO Unit := Igris.Proto.run () Igris.Gstuff.stepLine2
